@@ -227,7 +227,9 @@ pub fn run(out: &mut Out, seed: u64, tier: &str) {
     }
     for _ in 0..n_random { let m = random_mol(&mut rng); let m = if rng.chance(0.5) { distort(&m, rng.range(0.0, 0.2), &mut rng) } else { m }; mols.push(m); }
     // far-apart fragments and one long chain: "exactly one pair term for every unordered pair" has no distance limit
-    for sep in [13.0, 27.0, 60.0, 500.0, 2.0e4] {
+    let mut seps: Vec<f64> = vec![13.0, 27.0, 60.0, 500.0, 2.0e4];
+    for mag in hints().magnitudes().into_iter().filter(|m| *m >= 3.0 && *m < 1e7).take(4) { seps.push(mag * 0.98); seps.push(mag * 1.05); }
+    for sep in seps {
         let a = mols[rng.below(10)].clone(); let b = mols[rng.below(10)].clone();
         mols.push(union(&a, &moved(&b, &random_rotation(&mut rng), [sep, -0.4 * sep, 0.1 * sep])));
     }
